@@ -327,16 +327,33 @@ type FrOfPmTreeHasher = FrOf<PmTreeHasher>;
 
 impl PmTree {
     fn remove_indices(&mut self, indices: &[usize]) -> Result<()> {
+        if indices.iter().any(|&i| i >= self.capacity()) {
+            return Err(Report::msg("index to remove exceeds set size"));
+        }
+        // positions at or above next_index were never set: nothing to remove there
+        let next_index = self.tree.leaves_set();
+        let indices: Vec<usize> = indices.iter().copied().filter(|&i| i < next_index).collect();
+        if indices.is_empty() {
+            return Ok(());
+        }
         let start = indices[0];
         let end = indices.last().unwrap() + 1;
 
-        let new_leaves = (start..end).map(|_| PmTreeHasher::default_leaf());
+        // only the requested positions are reset, the leaves in between keep their value
+        let mut new_leaves = Vec::with_capacity(end - start);
+        for i in start..end {
+            if indices.contains(&i) {
+                new_leaves.push(PmTreeHasher::default_leaf());
+            } else {
+                new_leaves.push(self.tree.get(i)?);
+            }
+        }
 
         self.tree
             .set_range(start, new_leaves)
             .map_err(|e| Report::msg(e.to_string()))?;
 
-        for i in start..end {
+        for i in indices {
             self.cached_leaves_indices[i] = 0
         }
         Ok(())
